@@ -278,6 +278,7 @@ fn hidden_guard<T>(
 //@ SUBST `filter_blob_writer . map ( BlobFileWriter :: finish ) . transpose ( ) . inspect_err ( | e | { $1 } ) ? . unwrap_or_default ( )` ==> `blob_files_or_default(match finish_filter_blob_writer(filter_blob_writer) { Ok(v__) => v__, Err(e) => { $1 return Err(e); } })`
 //@ SUBST `compactor . finish ( $1 ) . inspect_err ( | e | { $2 } ) ?` ==> `match compactor.finish($1) { Ok(v__) => v__, Err(e) => { $2 return Err(e); } }`
 //@ SUBST `. inspect_err ( | e | { } )` ==> ``
+//@ SUBST `filter_blob_writer . map ( BlobFileWriter :: finish ) . transpose ( ) ? . unwrap_or_default ( )` ==> `blob_files_or_default(finish_filter_blob_writer(filter_blob_writer)?)`
 fn merge_tables(
     mut compaction_state: StateGuard,
     version_history_lock: ReadGuard,
